@@ -141,7 +141,13 @@ structure St where
   wire : List (Nat × String × Option Nat) := []     -- oldest first: (time, text, id of the user command or none for a probe)
   log : List LogEntry := []                          -- unbounded log, oldest first (the ring shows the last `logSize`)
   discCalls : Nat := 0
+  closeStarted : Bool := false                       -- some close() has cleared the disconnect callback
   closeReturned : Bool := false
+  madeAt : Nat := 0                                  -- time at which connection_made started the sender
+  probesStarted : Nat := 0                           -- number of probes flagged so far (s1 events)
+  probesAtClear : Nat := 0                           -- value of `probesStarted` when the flag was last cleared
+  decisions : List (String × Bool × Bool) := []      -- per received line: (text, withheld, a probe was flagged since the flag was last cleared)
+  rxLines : List String := []                        -- complete lines taken out of the receive buffer, oldest first
 deriving Repr
 
 inductive Label where
@@ -194,7 +200,7 @@ def stepS (P : Params) (s : St) : Option (St × Option Obs) :=
             else none
   | .timedOut => some ({ enqueue s .keepAlive with spc := .waitGet (s.now + P.kaInterval) }, none)
   | .got .exit => some ({ s with spc := .done }, some .exitS)
-  | .got .keepAlive => some ({ s with spc := .logging probe none, kaPending := true }, none)
+  | .got .keepAlive => some ({ s with spc := .logging probe none, kaPending := true, probesStarted := s.probesStarted + 1 }, none)
   | .got (.cmd i t) => some ({ s with spc := .logging t (some i) }, none)
   | .logging t i => some ({ s with spc := .lockWait t i, log := s.log ++ [.send t] }, some (.logged tidS))
   | .lockWait t i => if s.lock = none then some ({ s with spc := .writing t i, lock := some tidS }, none) else none
@@ -209,8 +215,8 @@ def stepS (P : Params) (s : St) : Option (St × Option Obs) :=
 /-- reader step (everything except returning from `serial.read` and from environment callbacks) -/
 def stepR (P : Params) (s : St) : Option (St × Option Obs) :=
   match s.rpc with
-  | .made 0 => some ({ s with rpc := .made 1, queueMade := true, queue := [], spc := .waitGet (s.now + P.kaInterval) }, none)
-  | .made 1 => some ({ s with rpc := .made 2, connected := true, kaPending := false }, none)
+  | .made 0 => some ({ s with rpc := .made 1, queueMade := true, queue := [], spc := .waitGet (s.now + P.kaInterval), madeAt := s.now }, none)
+  | .made 1 => some ({ s with rpc := .made 2, connected := true, kaPending := false, probesAtClear := s.probesStarted }, none)
   | .made 2 => some ({ enqueue s .keepAlive with rpc := .made 3 }, none)
   | .made 3 => some ({ enqueue s .keepAlive with rpc := .setEvent }, none)
   | .setEvent => some ({ s with rpc := .loopTest, connMade := true }, none)
@@ -221,12 +227,15 @@ def stepR (P : Params) (s : St) : Option (St × Option Obs) :=
     match splitFirst CR LF s.buffer with
     | some (p, rest) =>
       match String.fromUTF8? (ByteArray.mk p.toArray) with
-      | some l => some ({ s with rpc := .line0 l, buffer := rest }, none)
-      | none => some ({ s with rpc := .line0 "�", buffer := rest }, none)   -- invalid UTF-8: 'replace' decoding not modelled
+      | some l => some ({ s with rpc := .line0 l, buffer := rest, rxLines := s.rxLines ++ [l] }, none)
+      | none => some ({ s with rpc := .line0 "�", buffer := rest, rxLines := s.rxLines ++ ["�"] }, none)   -- invalid UTF-8: 'replace' decoding not modelled
     | none => some ({ s with rpc := .loopTest }, none)
   | .line0 l => some ({ s with rpc := .line1 l, log := s.log ++ [.received l] }, some (.logged tidR))
-  | .line1 l => some ({ s with rpc := .line2 l (handleLine s.kaPending l).2 }, none)
-  | .line2 l ig => some ({ s with rpc := if ig then .split else .deliver l s.msgCbs, kaPending := false }, none)
+  | .line1 l =>
+    let ig := (handleLine s.kaPending l).2
+    some ({ s with rpc := .line2 l ig,
+                   decisions := s.decisions ++ [(l, ig, decide (s.probesAtClear < s.probesStarted))] }, none)
+  | .line2 l ig => some ({ s with rpc := if ig then .split else .deliver l s.msgCbs, kaPending := false, probesAtClear := s.probesStarted }, none)
   | .deliver _ [] => some ({ s with rpc := .split }, none)
   | .lost 0 => some ({ s with rpc := .lost 1, alive := false, connected := false }, none)
   | .lost 1 =>
@@ -246,7 +255,7 @@ def stepR (P : Params) (s : St) : Option (St × Option Obs) :=
 /-- `close()` step of thread `t` at close-pc `pc` -/
 def stepClose (P : Params) (s : St) (t : Tid) (pc : CPc) : Option (St × Option Obs) :=
   match pc with
-  | .c0 => some (setUpc { s with discCbSet := false } t (.closing (if t = tidR then .r1 else .c1)), none)
+  | .c0 => some (setUpc { s with discCbSet := false, closeStarted := true } t (.closing (if t = tidR then .r1 else .c1)), none)
   | .c1 => if s.lock = none then some (setUpc { s with lock := some t } t (.closing .c2), none) else none
   | .c2 => some (setUpc { s with alive := false } t (.closing (.c3 (s.now + P.joinTimeout))), none)
   | .r1 => some (setUpc { s with msgCbs := [] } t (.closing .r2), none)
